@@ -90,6 +90,15 @@ Section EW.
     | Stride y _ => if Pos.eqb y w then None else Some e
     end.
 
+  (** right-hand side of a window statement: the eliminated window itself may not be windowed again *)
+  Definition ew_v (e : expr) : option expr :=
+    match e with
+    | Read y idx =>
+        if Pos.eqb y w then None
+        else match omap ew_e idx with Some idx' => Some (Read y idx') | None => None end
+    | _ => ew_e e
+    end.
+
   (** a binder may not touch the window, the windowed buffer or a variable of the window's bounds *)
   Definition ok_binder (b : sym) : bool :=
     negb (Pos.eqb b w) && negb (Pos.eqb b x) && negb (mem b (flat_map fv_w acc)).
@@ -126,9 +135,9 @@ Section EW.
         else None
     | Alloc y shape =>
         if ok_binder y then match omap ew_e shape with Some sh' => Some (Alloc y sh') | None => None end else None
-    | Call f args => match omap ew_e args with Some args' => Some (Call f args') | None => None end
+    | Call _ _ => None      (* statements with calls are not compared by Unify.Alpha anyway *)
     | WindowS y rhs =>
-        if ok_binder y then match ew_e rhs with Some rhs' => Some (WindowS y rhs') | None => None end else None
+        if ok_binder y then match ew_v rhs with Some rhs' => Some (WindowS y rhs') | None => None end else None
     end.
 End EW.
 
